@@ -40,6 +40,7 @@ structure Exp where
   triggered : Nat := 0      -- times_triggered
   ret : Int := 0            -- will_return value (0 when there is none)
   cons : List Con := []
+  side : Option (Nat × List Int) := none   -- `with_side_effect(callback, …)` whose callback calls mocked function g with these arguments
   deriving DecidableEq, Repr, Inhabited
 
 def Exp.isAlways (e : Exp) : Bool := e.ttl == UNL
@@ -152,6 +153,54 @@ end Cgreen.Mocks
 
 namespace Cgreen.Mocks
 
+/-! ### Side effects that call other mocks (`with_side_effect`) -/
+
+/-- A declaration with a side effect: the callback calls the mocked function `side.1`. -/
+def declareS (s : MState) (k : Kind) (f : Nat) (ret : Int) (cons : List Con) (side : Option (Nat × List Int)) : MState × List Out :=
+  let r := declare s k f ret cons
+  if r.2.isEmpty then
+    ({ r.1 with q := r.1.q.dropLast ++ (r.1.q.getLast?.map (fun e => { e with side := side })).toList }, r.2)
+  else r
+
+def isCheck : Out → Bool
+  | .check .. => true
+  | .ret _ => false
+
+/-- `mock_()` with side effects: the expectation found is checked, then its callback runs (a nested
+`mock_()` on another function, which may consume and remove entries anywhere in the queue), and only
+then the expectation is counted and, by function name, retired. -/
+def callS : Nat → MState → Nat → List Int → MState × List Out
+  | 0, s, f, args => call s f args
+  | fuel + 1, s, f, args =>
+    match findExp f s.q with
+    | none => call s f args
+    | some e =>
+      if e.isNever then call s f args
+      else match e.side with
+        | none => call s f args
+        | some (g, gargs) =>
+          let nested := callS fuel s g gargs
+          let upd : Exp → Exp := fun x =>
+            { x with called := if x.times.isSome then x.called + 1 else x.called, triggered := x.triggered + 1,
+                     ttl := if x.isAlways then x.ttl else x.ttl - 1 }
+          let q1 := modifyFirst f upd nested.1.q
+          let q2 := if !e.isAlways && e.ttl - 1 ≤ 0 then removeFirst f q1 else q1
+          ({ nested.1 with q := q2 }, checksFor e args ++ nested.2.filter isCheck ++ [.ret e.ret])
+
+/-- Without side effects in the queue nothing changes. -/
+theorem callS_eq_call (fuel : Nat) (s : MState) (f : Nat) (args : List Int) (h : ∀ e ∈ s.q, e.side = none) :
+    callS fuel s f args = call s f args := by
+  cases fuel with
+  | zero => rfl
+  | succ fuel =>
+    simp only [callS]
+    cases hf : findExp f s.q with
+    | none => rfl
+    | some e =>
+      have hm : e ∈ s.q := List.mem_of_find?_eq_some hf
+      simp only [h e hm]
+      split <;> rfl
+
 /-! ### The specification: one independent FIFO of pending expectations per function -/
 
 /-- Specification state: the queue of each function separately. -/
@@ -175,6 +224,22 @@ def specStep (s : SState) : Op → SState × List Out
     ({ s with qs := fun g => if g = f then r'.1.q else s.qs g }, r'.2)
   | .tally => ({ s with qs := fun _ => [] }, [])     -- what the tally reports is specified per function: `specTally`
   | .mode m => ({ s with mode := m }, [])
+
+/-- A call whose serving expectation has a side effect, in the specification: the nested call is an
+ordinary call on the other function's FIFO; `f`'s own FIFO evolves as for any call. -/
+def specCallS : Nat → SState → Nat → List Int → SState × List Out
+  | 0, s, f, args => specStep s (.call f args)
+  | fuel + 1, s, f, args =>
+    match (s.qs f).head? with
+    | none => specStep s (.call f args)
+    | some e =>
+      if e.isNever then specStep s (.call f args)
+      else match e.side with
+        | none => specStep s (.call f args)
+        | some (g, gargs) =>
+          let r1 := specCallS fuel s g gargs
+          let r2 := specStep r1.1 (.call f args)
+          (r2.1, r2.2.dropLast ++ r1.2.filter isCheck ++ r2.2.getLast?.toList)
 
 /-- What the tally reports about function `g`. -/
 def specTally (s : SState) (g : Nat) : List Out := (s.qs g).flatMap tallyOne
